@@ -412,7 +412,7 @@ func runC08(p *core.Prog, r *core.Report) {
 			core.Undecide("GetAt: no tag stripping (out[4:]) found")
 		}
 		var policyEdges, foundEdges []core.Edge
-		core.Instrs(fn, func(in ssa.Instruction) {
+		core.InstrsDeep(fn, func(in ssa.Instruction) {
 			ifi, ok := in.(*ssa.If)
 			if !ok {
 				return
